@@ -125,7 +125,7 @@ def load(repo="/repo", profile="debug"):
                     sfh.close()
                 # keep the cache small: at most 40 fact files (21 MB each), least recently used first
                 ents = sorted((os.path.getmtime(os.path.join(d, f)), f) for f in os.listdir(d) if f.endswith(".json"))
-                for _, f in ents[:-40]:
+                for _, f in ents[:-int(os.environ.get('VERIF_FACT_CACHE', '40'))]:
                     try:
                         os.remove(os.path.join(d, f))
                     except OSError:
